@@ -859,6 +859,11 @@ def judge_match(prop, case):
         if letter != "E":
             return [{"sig": "garbage-accepted:" + case.get("garbageClass", ""), "why": "a string that is not a sentence of the grammar was accepted: %r -> %s" % (case.get("text"), json.dumps(o))}]
         return []
+    if prop == "C16" and case.get("bareReserved") and "word" in case:
+        # the reserved-word sweep: the texts come from templates, there is no tree to evaluate
+        if letter != "E":
+            return [{"sig": "reserved-accepted", "why": "a reserved word used as a bare attribute name was accepted: %r" % case.get("text")}]
+        return []
     if prop == "C09" or "tree" not in case or case["tree"] is None:
         return []
     if case.get("bareReserved"):
